@@ -29,3 +29,7 @@ def replay_native(native):
 
 
 NATIVE_COVERS = {"RepartitionToFewer._compute_partition_boundaries": ["_compute_partition_boundaries"], "RepartitionToMore._nsplits": ["_nsplits"], "_clean_new_division_boundaries": ["_compute_partition_boundaries"]}
+
+
+# thorough tier: deliberate edits that must turn an obligation red (applied to a scratch copy, never to /repo)
+MUTATIONS = [('contracts.repartition', 'RepartitionToMore._nsplits', 'dask/dataframe/dask_expr/_repartition.py', '        nsplits = [div] * df.npartitions', '        nsplits = [div] * (df.npartitions - 1) + [0]'), ('contracts.repartition', '_clean_new_division_boundaries', 'dask/dataframe/dask_expr/_repartition.py', '    if new_partitions_boundaries[-1] < frame_npartitions:', '    if new_partitions_boundaries[-1] > frame_npartitions:')]
